@@ -10,3 +10,355 @@ Definition js_int_go (v : jsval) : res Z := match v with JNum n => Val (js_int n
 Definition idxJ (l : list jsval) (i : Z) : res jsval := if (i <? 0)%Z then Pnc else match nth_error l (Z.to_nat i) with Some v => Val v | None => Pnc end.
 Definition err_text (e : err) : bytes := match render e with Some t => t | None => s2b "?" end.
 
+Definition parseStringArg (arg : jsval) (name : bytes) : res (bytes * (option bytes)) :=
+  do t1 <- js_type_go arg;
+  if (negb (beqb t1 (s2b "string"))) then (do t2 <- js_type_go arg;
+  Val ([], (Some (name ++ [32; 109; 117; 115; 116; 32; 98; 101; 32; 97; 32; 115; 116; 114; 105; 110; 103; 44; 32; 103; 111; 116; 32] ++ t2))))
+  else
+  let value := (js_string_go arg) in
+  if (beqb value []) then (Val ([], (Some (name ++ [32; 99; 97; 110; 110; 111; 116; 32; 98; 101; 32; 101; 109; 112; 116; 121]))))
+  else
+  Val (value, None).
+
+Definition parseIntArg (arg : jsval) (name : bytes) : res (Z * (option bytes)) :=
+  do t1 <- js_type_go arg;
+  if (negb (beqb t1 (s2b "number"))) then (do t2 <- js_type_go arg;
+  Val (0%Z, (Some (name ++ [32; 109; 117; 115; 116; 32; 98; 101; 32; 97; 32; 110; 117; 109; 98; 101; 114; 44; 32; 103; 111; 116; 32] ++ t2))))
+  else
+  do t3 <- js_int_go arg;
+  let value := t3 in
+  if (Z.ltb value 0%Z) then (Val (0%Z, (Some (name ++ [32; 109; 117; 115; 116; 32; 98; 101; 32; 110; 111; 110; 45; 110; 101; 103; 97; 116; 105; 118; 101; 44; 32; 103; 111; 116; 32] ++ (dec_of_Z value)))))
+  else
+  Val (value, None).
+
+Definition generateOTP (fuel0 : nat) (secret : bytes) (counter : N) (digits : N) (algo : N) : res (bytes * (option bytes)) :=
+  do t1 <- Src.DecodeSecret fuel0 secret;
+  let t2 := (fst t1, option_map err_text (snd t1)) in
+  let '(secBuf, err_) := t2 in
+  if (is_some err_) then (do t3 <- deref err_;
+  Val ([], (Some ([105; 110; 118; 97; 108; 105; 100; 32; 115; 101; 99; 114; 101; 116; 32; 45; 32] ++ t3))))
+  else
+  do t4 <- Src.Digits_Int digits;
+  do t5 <- SrcWasm.DeriveRFC4226Wasm fuel0 secBuf counter t4 algo;
+  let t6 := (fst t5, option_map err_text (snd t5)) in
+  let '(code, err_) := t6 in
+  if (is_some err_) then (do t7 <- deref err_;
+  Val ([], (Some ([102; 97; 105; 108; 101; 100; 32; 116; 111; 32; 103; 101; 110; 101; 114; 97; 116; 101; 32; 79; 84; 80; 32; 45; 32] ++ t7))))
+  else
+  Val (code, None).
+
+Definition parseArgsAndGenerate (fuel0 : nat) (args : (list jsval)) (otpType : bytes) : res (bytes * (option bytes)) :=
+  if (negb (Z.eqb (zlen args) 4%Z)) then (Val ([], (Some ([101; 120; 112; 101; 99; 116; 101; 100; 32; 52; 32; 97; 114; 103; 117; 109; 101; 110; 116; 115; 32; 102; 111; 114; 32] ++ otpType ++ [32; 40; 115; 101; 99; 114; 101; 116; 44; 32] ++ (query_get otpType [((s2b "HOTP"), (s2b "counter")); ((s2b "TOTP"), (s2b "timestamp"))]) ++ [44; 32; 100; 105; 103; 105; 116; 115; 44; 32; 97; 108; 103; 111; 41; 44; 32; 103; 111; 116; 32] ++ (dec_of_Z (zlen args))))))
+  else
+  do t1 <- idxJ args 0%Z;
+  do t2 <- parseStringArg t1 (s2b "secret");
+  let '(secret, err_) := t2 in
+  if (is_some err_) then (Val ([], err_))
+  else
+  do t3 <- idxJ args 1%Z;
+  do t4 <- parseIntArg t3 (query_get otpType [((s2b "HOTP"), (s2b "counter")); ((s2b "TOTP"), (s2b "timestamp"))]);
+  let '(counter, err_) := t4 in
+  if (is_some err_) then (Val ([], err_))
+  else
+  do t5 <- idxJ args 2%Z;
+  do t6 <- parseStringArg t5 (s2b "digits");
+  let '(digitsRaw, err_) := t6 in
+  if (is_some err_) then (Val ([], err_))
+  else
+  do t7 <- idxJ args 3%Z;
+  do t8 <- parseStringArg t7 (s2b "algo");
+  let '(algoRaw, err_) := t8 in
+  if (is_some err_) then (Val ([], err_))
+  else
+  do t9 <- Src.DigitsFromStr digitsRaw;
+  let digits := t9 in
+  do t10 <- Src.AlgorithmFromStr algoRaw;
+  let algo := t10 in
+  generateOTP fuel0 secret (of_int64 counter) digits algo.
+
+Definition generateHOTP (fuel0 : nat) (blank : jsval) (args : (list jsval)) : res wres :=
+  do t1 <- parseArgsAndGenerate fuel0 args (s2b "HOTP");
+  let '(result, err_) := t1 in
+  if (is_some err_) then (do t2 <- deref err_;
+  Val (WStr ([101; 114; 114; 111; 114; 58; 32] ++ t2)))
+  else
+  Val (WStr result).
+
+Definition generateTOTP (fuel0 : nat) (blank : jsval) (args : (list jsval)) : res wres :=
+  if (negb (Z.eqb (zlen args) 5%Z)) then (let err_ := (Some ([101; 120; 112; 101; 99; 116; 101; 100; 32; 53; 32; 97; 114; 103; 117; 109; 101; 110; 116; 115; 32; 102; 111; 114; 32; 84; 79; 84; 80; 32; 40; 115; 101; 99; 114; 101; 116; 44; 32; 116; 105; 109; 101; 115; 116; 97; 109; 112; 44; 32; 100; 105; 103; 105; 116; 115; 44; 32; 97; 108; 103; 111; 44; 32; 112; 101; 114; 105; 111; 100; 41; 44; 32; 103; 111; 116; 32] ++ (dec_of_Z (zlen args)))) in
+  do t1 <- deref err_;
+  Val (WStr ((s2b "error: ") ++ t1)))
+  else
+  do t2 <- idxJ args 0%Z;
+  do t3 <- parseStringArg t2 (s2b "secret");
+  let '(secret, err__2) := t3 in
+  if (is_some err__2) then (do t4 <- deref err__2;
+  Val (WStr ((s2b "error: ") ++ t4)))
+  else
+  do t5 <- idxJ args 1%Z;
+  do t6 <- parseIntArg t5 (s2b "timestamp");
+  let '(timestamp, err__2) := t6 in
+  if (is_some err__2) then (do t7 <- deref err__2;
+  Val (WStr ((s2b "error: ") ++ t7)))
+  else
+  do t8 <- idxJ args 2%Z;
+  do t9 <- parseStringArg t8 (s2b "digits");
+  let '(digitsRaw, err__2) := t9 in
+  if (is_some err__2) then (do t10 <- deref err__2;
+  Val (WStr ((s2b "error: ") ++ t10)))
+  else
+  do t11 <- idxJ args 3%Z;
+  do t12 <- parseStringArg t11 (s2b "algo");
+  let '(algoRaw, err__2) := t12 in
+  if (is_some err__2) then (do t13 <- deref err__2;
+  Val (WStr ((s2b "error: ") ++ t13)))
+  else
+  do t14 <- idxJ args 4%Z;
+  do t15 <- parseIntArg t14 (s2b "period");
+  let '(period, err__2) := t15 in
+  if (is_some err__2) then (do t16 <- deref err__2;
+  Val (WStr ((s2b "error: ") ++ t16)))
+  else
+  if ((Z.leb period 0%Z) || (Z.ltb 3600%Z period)) then (let err__3 := (Some ([112; 101; 114; 105; 111; 100; 32; 109; 117; 115; 116; 32; 98; 101; 32; 98; 101; 116; 119; 101; 101; 110; 32; 49; 32; 97; 110; 100; 32; 51; 54; 48; 48; 32; 115; 101; 99; 111; 110; 100; 115; 44; 32; 103; 111; 116; 32] ++ (dec_of_Z period))) in
+  do t17 <- deref err__3;
+  Val (WStr ((s2b "error: ") ++ t17)))
+  else
+  do t18 <- Src.DigitsFromStr digitsRaw;
+  let digits := t18 in
+  do t19 <- Src.AlgorithmFromStr algoRaw;
+  let algo := t19 in
+  let t := timestamp in
+  do t20 <- Src.TimeCounterFunc t (of_int64 period);
+  let counter := t20 in
+  do t21 <- generateOTP fuel0 secret counter digits algo;
+  let '(code, err__2) := t21 in
+  if (is_some err__2) then (do t22 <- deref err__2;
+  Val (WStr ((s2b "error: ") ++ t22)))
+  else
+  Val (WStr code).
+
+Fixpoint validateHOTP_loop1 (fuel : nat) (fuel0 : nat)  (skew : Z) (counter : Z) (code : bytes) (secretBuf : bytes) (digits : N) (algo : N) (i : Z) (kx : Z -> res wres) {struct fuel} : res wres :=
+  match fuel with O => OutOfFuel | S fuel =>
+  if (Z.leb i skew) then (let currCounter := (wrap_int64 (Z.add counter i)) in
+  if (Z.ltb currCounter 0%Z) then (let i := (wrap_int64 (Z.add i 1%Z)) in
+  validateHOTP_loop1 fuel fuel0  skew counter code secretBuf digits algo i kx)
+  else
+  do t25 <- SrcWasm.ValidateOTPWasm fuel0 code secretBuf (of_int64 currCounter) digits algo;
+  let t26 := (fst t25, option_map err_text (snd t25)) in
+  let '(valid, err__3) := t26 in
+  if ((negb (is_some err__3)) && valid) then (Val (WBool true))
+  else
+  let i := (wrap_int64 (Z.add i 1%Z)) in
+  validateHOTP_loop1 fuel fuel0  skew counter code secretBuf digits algo i kx)
+  else kx i
+  end.
+
+Definition validateHOTP (fuel0 : nat) (blank : jsval) (args : (list jsval)) : res wres :=
+  if (negb (Z.eqb (zlen args) 6%Z)) then (let err_ := (Some ([101; 120; 112; 101; 99; 116; 101; 100; 32; 54; 32; 97; 114; 103; 117; 109; 101; 110; 116; 115; 58; 32; 115; 101; 99; 114; 101; 116; 44; 32; 99; 111; 100; 101; 44; 32; 99; 111; 117; 110; 116; 101; 114; 44; 32; 100; 105; 103; 105; 116; 115; 44; 32; 97; 108; 103; 111; 44; 32; 115; 107; 101; 119; 59; 32; 103; 111; 116; 32] ++ (dec_of_Z (zlen args)))) in
+  do t1 <- deref err_;
+  Val (WStr ((s2b "error: ") ++ t1)))
+  else
+  do t2 <- idxJ args 0%Z;
+  do t3 <- parseStringArg t2 (s2b "secret");
+  let '(secretStr, err__2) := t3 in
+  if (is_some err__2) then (do t4 <- deref err__2;
+  Val (WStr ((s2b "error: ") ++ t4)))
+  else
+  do t5 <- idxJ args 1%Z;
+  do t6 <- parseStringArg t5 (s2b "code");
+  let '(code, err__2) := t6 in
+  if (is_some err__2) then (do t7 <- deref err__2;
+  Val (WStr ((s2b "error: ") ++ t7)))
+  else
+  do t8 <- idxJ args 2%Z;
+  do t9 <- parseIntArg t8 (s2b "counter");
+  let '(counter, err__2) := t9 in
+  if (is_some err__2) then (do t10 <- deref err__2;
+  Val (WStr ((s2b "error: ") ++ t10)))
+  else
+  do t11 <- idxJ args 3%Z;
+  do t12 <- parseStringArg t11 (s2b "digits");
+  let '(digitsStr, err__2) := t12 in
+  if (is_some err__2) then (do t13 <- deref err__2;
+  Val (WStr ((s2b "error: ") ++ t13)))
+  else
+  do t14 <- idxJ args 4%Z;
+  do t15 <- parseStringArg t14 (s2b "algo");
+  let '(algoStr, err__2) := t15 in
+  if (is_some err__2) then (do t16 <- deref err__2;
+  Val (WStr ((s2b "error: ") ++ t16)))
+  else
+  do t17 <- idxJ args 5%Z;
+  do t18 <- parseIntArg t17 (s2b "skew");
+  let '(skew, err__2) := t18 in
+  if (is_some err__2) then (do t19 <- deref err__2;
+  Val (WStr ((s2b "error: ") ++ t19)))
+  else
+  if ((Z.ltb skew 0%Z) || (Z.ltb 10%Z skew)) then (Val (WStr (s2b "error: skew must be in range [0,10]")))
+  else
+  do t20 <- Src.DigitsFromStr digitsStr;
+  let digits := t20 in
+  do t21 <- Src.AlgorithmFromStr algoStr;
+  let algo := t21 in
+  do t22 <- Src.DecodeSecret fuel0 secretStr;
+  let t23 := (fst t22, option_map err_text (snd t22)) in
+  let '(secretBuf, err__2) := t23 in
+  if (is_some err__2) then (do t24 <- deref err__2;
+  Val (WStr ((s2b "error: invalid secret - ") ++ t24)))
+  else
+  let i := (wrap_int64 (Z.opp skew)) in
+  validateHOTP_loop1 fuel0 fuel0 skew counter code secretBuf digits algo i (fun (i : Z) =>
+  Val (WBool false)).
+
+Fixpoint validateTOTP_loop1 (fuel : nat) (fuel0 : nat)  (skew : Z) (code : bytes) (secretBuf : bytes) (counter : N) (digits : N) (algo : N) (timestamp : Z) (i : Z) (kx : Z -> res wres) {struct fuel} : res wres :=
+  match fuel with O => OutOfFuel | S fuel =>
+  if (Z.leb i skew) then (do t30 <- SrcWasm.ValidateOTPWasm fuel0 code secretBuf (wrap64 (N.add counter (of_int64 i))) digits algo;
+  let t31 := (fst t30, option_map err_text (snd t30)) in
+  let '(valid, err__4) := t31 in
+  if ((negb (is_some err__4)) && valid) then (Val (WBool true))
+  else
+  let i := (wrap_int64 (Z.add i 1%Z)) in
+  validateTOTP_loop1 fuel fuel0  skew code secretBuf counter digits algo timestamp i kx)
+  else kx i
+  end.
+
+Definition validateTOTP (fuel0 : nat) (blank : jsval) (args : (list jsval)) : res wres :=
+  if (negb (Z.eqb (zlen args) 7%Z)) then (let err_ := (Some ([101; 120; 112; 101; 99; 116; 101; 100; 32; 55; 32; 97; 114; 103; 117; 109; 101; 110; 116; 115; 58; 32; 115; 101; 99; 114; 101; 116; 44; 32; 99; 111; 100; 101; 44; 32; 116; 105; 109; 101; 115; 116; 97; 109; 112; 44; 32; 100; 105; 103; 105; 116; 115; 44; 32; 97; 108; 103; 111; 44; 32; 115; 107; 101; 119; 44; 32; 112; 101; 114; 105; 111; 100; 59; 32; 103; 111; 116; 32] ++ (dec_of_Z (zlen args)))) in
+  do t1 <- deref err_;
+  Val (WStr ((s2b "error: ") ++ t1)))
+  else
+  do t2 <- idxJ args 0%Z;
+  do t3 <- parseStringArg t2 (s2b "secret");
+  let '(secretStr, err__2) := t3 in
+  if (is_some err__2) then (do t4 <- deref err__2;
+  Val (WStr ((s2b "error: ") ++ t4)))
+  else
+  do t5 <- idxJ args 1%Z;
+  do t6 <- parseStringArg t5 (s2b "code");
+  let '(code, err__2) := t6 in
+  if (is_some err__2) then (do t7 <- deref err__2;
+  Val (WStr ((s2b "error: ") ++ t7)))
+  else
+  do t8 <- idxJ args 2%Z;
+  do t9 <- parseIntArg t8 (s2b "timestamp");
+  let '(timestamp, err__2) := t9 in
+  if (is_some err__2) then (do t10 <- deref err__2;
+  Val (WStr ((s2b "error: ") ++ t10)))
+  else
+  if (Z.ltb timestamp 0%Z) then (Val (WStr (s2b "error: timestamp must be non-negative")))
+  else
+  do t11 <- idxJ args 3%Z;
+  do t12 <- parseStringArg t11 (s2b "digits");
+  let '(digitsStr, err__2) := t12 in
+  if (is_some err__2) then (do t13 <- deref err__2;
+  Val (WStr ((s2b "error: ") ++ t13)))
+  else
+  do t14 <- idxJ args 4%Z;
+  do t15 <- parseStringArg t14 (s2b "algo");
+  let '(algoStr, err__2) := t15 in
+  if (is_some err__2) then (do t16 <- deref err__2;
+  Val (WStr ((s2b "error: ") ++ t16)))
+  else
+  do t17 <- idxJ args 5%Z;
+  do t18 <- parseIntArg t17 (s2b "skew");
+  let '(skew, err__2) := t18 in
+  if (is_some err__2) then (do t19 <- deref err__2;
+  Val (WStr ((s2b "error: ") ++ t19)))
+  else
+  if ((Z.ltb skew 0%Z) || (Z.ltb 10%Z skew)) then (let err__3 := (Some ([115; 107; 101; 119; 32; 109; 117; 115; 116; 32; 98; 101; 32; 105; 110; 32; 114; 97; 110; 103; 101; 32; 91; 48; 44; 49; 48; 93])) in
+  do t20 <- deref err__3;
+  Val (WStr ((s2b "error: ") ++ t20)))
+  else
+  do t21 <- idxJ args 6%Z;
+  do t22 <- parseIntArg t21 (s2b "period");
+  let '(period, err__2) := t22 in
+  if (is_some err__2) then (do t23 <- deref err__2;
+  Val (WStr ((s2b "error: ") ++ t23)))
+  else
+  if (Z.leb period 0%Z) then (Val (WStr (s2b "error: period must be > 0")))
+  else
+  do t24 <- Src.DigitsFromStr digitsStr;
+  let digits := t24 in
+  do t25 <- Src.AlgorithmFromStr algoStr;
+  let algo := t25 in
+  do t26 <- Src.DecodeSecret fuel0 secretStr;
+  let t27 := (fst t26, option_map err_text (snd t26)) in
+  let '(secretBuf, err__2) := t27 in
+  if (is_some err__2) then (do t28 <- deref err__2;
+  Val (WStr ((s2b "error: invalid secret - ") ++ t28)))
+  else
+  let t := timestamp in
+  do t29 <- Src.TimeCounterFunc t (of_int64 period);
+  let counter := t29 in
+  let i := (wrap_int64 (Z.opp skew)) in
+  validateTOTP_loop1 fuel0 fuel0 skew code secretBuf counter digits algo timestamp i (fun (i : Z) =>
+  Val (WBool false)).
+
+Definition generateOTPURL (fuel0 : nat) (blank : jsval) (args : (list jsval)) : res wres :=
+  if (negb (Z.eqb (zlen args) 6%Z)) then (let err_ := (Some ([101; 120; 112; 101; 99; 116; 101; 100; 32; 54; 32; 97; 114; 103; 117; 109; 101; 110; 116; 115; 32; 40; 111; 116; 112; 44; 32; 105; 115; 115; 117; 101; 114; 44; 32; 97; 99; 99; 111; 117; 110; 116; 78; 97; 109; 101; 44; 32; 115; 101; 99; 114; 101; 116; 44; 32; 100; 105; 103; 105; 116; 115; 44; 32; 97; 108; 103; 111; 114; 105; 116; 104; 109; 41; 44; 32; 103; 111; 116; 32] ++ (dec_of_Z (zlen args)))) in
+  do t1 <- deref err_;
+  Val (WStr ((s2b "error: ") ++ t1)))
+  else
+  do t2 <- idxJ args 0%Z;
+  do t3 <- parseStringArg t2 (s2b "otp");
+  let '(otpType, err__2) := t3 in
+  if (is_some err__2) then (do t4 <- deref err__2;
+  Val (WStr ((s2b "error: ") ++ t4)))
+  else
+  do t5 <- idxJ args 1%Z;
+  do t6 <- parseStringArg t5 (s2b "issuer");
+  let '(issuer, err__2) := t6 in
+  if (is_some err__2) then (do t7 <- deref err__2;
+  Val (WStr ((s2b "error: ") ++ t7)))
+  else
+  do t8 <- idxJ args 2%Z;
+  do t9 <- parseStringArg t8 (s2b "accountName");
+  let '(accountName, err__2) := t9 in
+  if (is_some err__2) then (do t10 <- deref err__2;
+  Val (WStr ((s2b "error: ") ++ t10)))
+  else
+  do t11 <- idxJ args 3%Z;
+  do t12 <- parseStringArg t11 (s2b "secret");
+  let '(secret, err__2) := t12 in
+  if (is_some err__2) then (do t13 <- deref err__2;
+  Val (WStr ((s2b "error: ") ++ t13)))
+  else
+  do t14 <- idxJ args 4%Z;
+  do t15 <- parseStringArg t14 (s2b "digits");
+  let '(digitsRaw, err__2) := t15 in
+  if (is_some err__2) then (do t16 <- deref err__2;
+  Val (WStr ((s2b "error: ") ++ t16)))
+  else
+  do t17 <- Src.DigitsFromStr digitsRaw;
+  let digits := t17 in
+  do t18 <- idxJ args 5%Z;
+  do t19 <- parseStringArg t18 (s2b "algorithm");
+  let '(algoRaw, err__2) := t19 in
+  if (is_some err__2) then (do t20 <- deref err__2;
+  Val (WStr ((s2b "error: ") ++ t20)))
+  else
+  do t21 <- Src.AlgorithmFromStr algoRaw;
+  let algo := t21 in
+  let param_ := (mkUrlParam issuer accountName 0%N secret digits algo) in
+  let urlObj : (option url) := None in
+  let t22 := otpType in
+  let kj1 := fun (urlObj : (option url)) (err__2 : (option bytes)) =>
+  if (is_some err__2) then (do t23 <- deref err__2;
+  Val (WStr ((s2b "error: ") ++ t23)))
+  else
+  if (negb (is_some urlObj)) then (Val (WStr (s2b "error: url not generated")))
+  else
+  do t24 <- deref urlObj;
+  let urlStr := (url_string t24) in
+  Val (WStr urlStr) in
+  if ((beqb t22 (s2b "totp"))) then (do t25 <- Src.GenerateTOTPURL fuel0 param_;
+  let t26 := (fst t25, option_map err_text (snd t25)) in
+  let '(urlObj, err__2) := t26 in
+  kj1 urlObj err__2)
+  else if ((beqb t22 (s2b "hotp"))) then (do t27 <- Src.GenerateHOTPURL fuel0 param_;
+  let t28 := (fst t27, option_map err_text (snd t27)) in
+  let '(urlObj, err__2) := t28 in
+  kj1 urlObj err__2)
+  else (let err__2 := (Some ([105; 110; 118; 97; 108; 105; 100; 32; 111; 116; 112; 32; 116; 121; 112; 101; 58; 32] ++ otpType ++ [32; 40; 109; 117; 115; 116; 32; 98; 101; 32; 39; 116; 111; 116; 112; 39; 32; 111; 114; 32; 39; 104; 111; 116; 112; 39; 41])) in
+  kj1 urlObj err__2).
+
